@@ -42,7 +42,9 @@ Definition elem_eqb (a b : text * qname) : bool := text_eqb (fst a) (fst b) && q
 Definition subset {A} (eqb : A -> A -> bool) (a b : list A) : bool := forallb (fun x => existsb (eqb x) b) a.
 (** what of a model document [m] is missing from the real document [r] of the same namespace.
     The real schema may hold more (Spyne also publishes the uncustomised twin of an Array member
-    type, and imports more namespaces than it refers to); what the model says must be there. *)
+    type, and imports more namespaces than it refers to); what the model says must be there.
+    Likewise the real schema may hold more documents (the namespace of Uuid when only customised
+    twins of it are used). *)
 Definition sdoc_missing (m r : sdoc) : list text * list tdef * list (text * qname) :=
   (filter (fun x => negb (existsb (text_eqb x) (d_imports r))) (d_imports m),
    filter (fun x => negb (existsb (tdef_eqb x) (d_types r))) (d_types m),
@@ -51,8 +53,7 @@ Definition sdoc_covered (m r : sdoc) : bool :=
   Bool.eqb (d_qualified m) (d_qualified r)
   && match sdoc_missing m r with ([], [], []) => true | _ => false end.
 Definition schema_covered (model real : schema) : bool :=
-  Nat.eqb (length model) (length real)
-  && forallb (fun m => match find (fun r => text_eqb (d_tns r) (d_tns m)) real with
+  forallb (fun m => match find (fun r => text_eqb (d_tns r) (d_tns m)) real with
                        | Some r => sdoc_covered m r
                        | None => false
                        end) model.
